@@ -355,3 +355,58 @@ package keeper
 //@                       && old(forall d:Str :: STAKED(pools, d) >= stakedAt(pools, poolId, d) && REM(ruleF, d) >= remAt(ruleF, poolId, d) && REM(ruleF, d) >= 0 && STAKED(pools, d) >= 0)
 //@                       ==> err == nil
 //@ end
+
+// ---------------------------------------------------------------------------------------------
+// Ending a pool: refund of the remaining budgets, exactly once (C06); expiry queue (C13)
+
+// rule of denomination d after this operation's release, and what is left of its budget
+//@ define relRule(pl, d) = ite(releasing(pl), updRule(old(RULE(pl.Id, d)), pl), old(RULE(pl.Id, d)))
+//@ define leftD(pl, d) = ite(old(has(ruleF, pl.Id, d)), relRule(pl, d).RemainingReward, 0)
+// queue hygiene: an entry sits at the end height of an existing pool; a pool has at most that one entry
+//@ define activeInv = forall h:Int :: forall p:Str :: has(active, h, p) ==> has(pools, p) && POOL(p).EndHeight == h && POOL(p).Id == p
+
+// Refund: take the pool off the expiry queue, release what is due up to now, end the pool at the current height,
+// zero every remaining budget and pay exactly those budgets to the creator.
+//@ func Keeper.Refund
+//@   property C06, C13, C05
+//@   returns refund, err
+//@   requires rulesWF && rulesOK && height >= 0
+//@   requires has(pools, pool.Id) && POOL(pool.Id) == pool && poolOK(pool)
+//@   requires bechok(pool.Creator) && addr(pool.Creator) != MOD && addr(pool.Creator) != COLLECTOR && !blocked[addr(pool.Creator)]
+//@   let C = addr(pool.Creator)
+//@   uses ridxRange(pool.Rules, "")
+//@   uses ridxHit(pool.Rules, 0)
+//@   modifies active, ruleF, pools, bal
+//@   invariant #1 idx:  rangeindex >= 0 - 1 && rangeindex < len(pool.Rules) && err == nil
+//@   invariant #1 done: forall d:Str :: inRules(pool.Rules, d) && ridx(pool.Rules, d) <= rangeindex ==>
+//@                         has(ruleF, pool.Id, d) && RULE(pool.Id, d) == with(pool.Rules[ridx(pool.Rules, d)], "RemainingReward", 0)
+//@                         && amt(refundTotal, d) == pool.Rules[ridx(pool.Rules, d)].RemainingReward
+//@   invariant #1 todo: forall d:Str :: inRules(pool.Rules, d) && ridx(pool.Rules, d) > rangeindex ==>
+//@                         has(ruleF, pool.Id, d) && RULE(pool.Id, d) == pool.Rules[ridx(pool.Rules, d)] && amt(refundTotal, d) == 0
+//@   invariant #1 rest: (forall d:Str :: !inRules(pool.Rules, d) ==> !has(ruleF, pool.Id, d) && amt(refundTotal, d) == 0)
+//@                      && (forall p:Str :: forall d:Str :: p != pool.Id ==> has(ruleF, p, d) == old(has(ruleF, p, d)) && RULE(p, d) == old(RULE(p, d)))
+//@                      && (forall d:Str :: amt(refundTotal, d) >= 0)
+//@   invariant #1 frame: active == del(old(active), old(POOL(pool.Id)).EndHeight, pool.Id)
+//@                      && pools == set(old(pools), pool.Id, with(pool, "Rules", zero(pool.Rules)))
+//@                      && pool == with(with(with(with(old(POOL(pool.Id)), "LastHeightDistrRewards", height), "EndHeight", height),
+//@                           "StartHeight", ite(old(POOL(pool.Id)).StartHeight > height, height, old(POOL(pool.Id)).StartHeight)), "Rules", pool.Rules)
+//@                      && (forall d:Str :: bal(MOD, d) == old(bal(MOD, d)) - relD(old(POOL(pool.Id)), d) && bal(COLLECTOR, d) == old(bal(COLLECTOR, d)) + relD(old(POOL(pool.Id)), d))
+//@                      && (forall a:Bytes :: forall d:Str :: a != MOD && a != COLLECTOR ==> bal(a, d) == old(bal(a, d)))
+//@   ensures dequeued:  active == del(old(active), pool.EndHeight, pool.Id)
+//@   ensures refunded:  err == nil ==> (forall d:Str :: amt(refund, d) == leftD(pool, d))
+//@   ensures zeroed:    err == nil ==> (forall d:Str :: has(ruleF, pool.Id, d) == old(has(ruleF, pool.Id, d))
+//@                         && (has(ruleF, pool.Id, d) ==> RULE(pool.Id, d) == with(relRule(pool, d), "RemainingReward", 0)))
+//@   ensures rule_frame: forall p:Str :: forall d:Str :: p != pool.Id ==> has(ruleF, p, d) == old(has(ruleF, p, d)) && RULE(p, d) == old(RULE(p, d))
+//@   ensures ledger:    err == nil ==> (forall d:Str :: bal(MOD, d) == old(bal(MOD, d)) - relD(pool, d) - leftD(pool, d)
+//@                         && bal(COLLECTOR, d) == old(bal(COLLECTOR, d)) + relD(pool, d)
+//@                         && bal(C, d) == old(bal(C, d)) + leftD(pool, d))
+//@   ensures ledger_frame: forall a:Bytes :: forall d:Str :: a != MOD && a != COLLECTOR && a != C ==> bal(a, d) == old(bal(a, d))
+//@   ensures pool_record: err == nil ==> pools == set(old(pools), pool.Id, with(with(with(with(pool, "LastHeightDistrRewards", height), "EndHeight", height),
+//@                           "StartHeight", ite(pool.StartHeight > height, height, pool.StartHeight)), "Rules", zero(pool.Rules)))
+//@   lemma @return stakedUpd(old(pools), pool.Id, POOL(pool.Id)) if err == nil
+//@   lemma @return remDiff(old(ruleF), ruleF, pool.Id) if err == nil
+//@   ensures escrow:    err == nil && old(escrowInv) ==> escrowInv
+//@   by escrow: ens:ledger, ens:pool_record, ens:zeroed, ens:rule_frame, lemma, req
+//@   ensures queue:     old(activeInv) && err == nil ==> activeInv && (forall h:Int :: !has(active, h, pool.Id))
+//@   by queue: ens:dequeued, ens:pool_record, req
+//@ end
